@@ -415,6 +415,75 @@ fn gated_check(case: &Case) -> Verdict {
     Verdict::pass(case.xs.len() > window_of(spec), vec![name.to_string()])
 }
 
+/// very long f64 runs (past 2^16 and 2^17 updates); ints = [seed, len, shape], inputs on the 1/8 grid (exact in f64).
+/// Ema: an independent f64 evaluation of the recurrence and the span of everything seen, at every step. Sma / Alma: the
+/// definition from the last values at the checkpoints of gen::ultra_checkpoints, and the window's span at every step.
+fn ultra_check(case: &Case) -> Verdict {
+    use sliding_features::View;
+    let spec = case.spec();
+    let name = vname(spec);
+    let n = window_of(spec);
+    let (seed, len, shape) = (case.ints[0] as u64, case.ints[1] as usize, case.ints[2]);
+    let ks = gen::ultra_stream(seed, len, shape);
+    let cps = gen::ultra_checkpoints(seed, len, n, if name == "Alma" { 40 } else { 120 });
+    let mut v = build::<f64>(spec);
+    let w = match spec {
+        Spec::Ema(..) => 2.0 / (n as f64 + 1.0),
+        Spec::EmaAlpha(_, _, al) => al / (n as f64 + 1.0),
+        _ => 0.0,
+    };
+    let (mut e, mut lo, mut hi, mut mag) = (0.0f64, f64::INFINITY, f64::NEG_INFINITY, 1.0f64);
+    let mut win: std::collections::VecDeque<f64> = std::collections::VecDeque::new();
+    let mut ci = 0;
+    let mut compared = 0;
+    let ctx = |t: usize| format!("after {} updates (stream: seed {seed}, len {len}, shape {shape}, grid 1/8)", t + 1);
+    for (t, k) in ks.iter().enumerate() {
+        let x = *k as f64 / 8.0;
+        v.update(x);
+        let out = v.last();
+        mag = mag.max(x.abs() + 1.0);
+        let noise = 4.0 * n as f64 * f64::EPSILON * mag * ((t / n.max(1)) + 1) as f64;
+        if name == "Ema" {
+            e = if t == 0 { x } else { x * w + e * (1.0 - w) };
+            lo = lo.min(x);
+            hi = hi.max(x);
+            match out {
+                None if t + 1 < n => {}
+                Some(o) if t + 1 >= n && o.is_finite() && (o - e).abs() <= 1e-9 * mag && o >= lo - noise && o <= hi + noise => compared += 1,
+                other => return Verdict::fail("C04/Ema/ultra/f64|value", format!("{} {}: reported {other:?}, the recurrence e_t = w x_t + (1-w) e_(t-1) gives {e:e} (span of the inputs [{lo:e}, {hi:e}])", spec.show(), ctx(t))),
+            }
+        } else {
+            win.push_back(x);
+            if win.len() > n {
+                win.pop_front();
+            }
+            if let Some(o) = out {
+                let (wl, wh) = win.iter().fold((f64::INFINITY, f64::NEG_INFINITY), |(a, b), y| (a.min(*y), b.max(*y)));
+                if !o.is_finite() || o < wl - noise || o > wh + noise {
+                    return Verdict::fail(format!("C04/{name}/ultra/f64|bounds"), format!("{} {}: output {o:e} outside the span [{wl:e}, {wh:e}] of the last {} values", spec.show(), ctx(t), win.len()));
+                }
+            } else if t + 1 >= n {
+                return Verdict::fail(format!("C04/{name}/ultra/f64|readiness"), format!("{} {}: reported nothing", spec.show(), ctx(t)));
+            }
+            if ci < cps.len() && cps[ci] == t {
+                ci += 1;
+                if t >= 2 * n + 2 {
+                    let h: Vec<R> = ks[t - 2 * n - 1..=t].iter().map(|k| R::new((*k).into(), 8.into())).collect();
+                    let want = match spec {
+                        Spec::Sma(..) => refs::sma(&h, n).pop().unwrap(),
+                        _ => definition_wants(spec, &h).expect("Alma").pop().unwrap(),
+                    };
+                    if let Err(m) = compare_f64(&[out], &[want], &|_, _| f(1e-9) * f(mag)) {
+                        return Verdict::fail(format!("C04/{name}/ultra/f64|{}", m.aspect), format!("{} {}: {}; the last {} inputs were {}", spec.show(), ctx(t), m.detail, h.len(), show_bigs(&h)));
+                    }
+                    compared += 1;
+                }
+            }
+        }
+    }
+    Verdict::pass(compared >= 8 && len > 70_000, vec![name.to_string(), format!("shape_{shape}")])
+}
+
 pub fn clauses() -> Vec<Clause> {
     let gen_rule = "view drawn from Sma(N), Ema(N), Ema::with_alpha(N, alpha = (N+1) j/8, j = 1..8), Alma(N), Alma::new_custom(N, sigma in {0.5,1,2,4,6,8,12}, offset in {0,.25,.5,.85,1}), N in 1..40; grammar stream of 0..4N+8 values (zeros, sign changes, ties, flats) optionally prefixed so that the EMA state is exactly 0 (first value 0; [2k, -k(N-1)]; [k,-k,0,0]).";
     vec![
@@ -428,6 +497,7 @@ pub fn clauses() -> Vec<Clause> {
         Clause::generated("C04", "C04/Ema/definition/f64", "same on decimal grids, tolerance 1e-9 x largest magnitude.", 2500, 60_000, def_case(false, true), def_f64).with_shard(300),
         Clause::generated("C04", "C04/Alma/definition/Q", format!("{gen_rule} Oracle: sum w_k x_k / sum w_k over window positions k = 0 (oldest) .. n-1, w_k = exp(-(k - offset (N+1))^2 / (2 (N/sigma)^2)) with the exact scalar's exp; every step. Non-trivial: >= N+2 evictions; label slid_by_more_than_2N."), 2500, 60_000, def_case(true, false), def_q).with_shard(100),
         Clause::generated("C04", "C04/gated/Q", format!("{gen_rule} The view sits over a leaf that withholds its first k in 1..9 inputs (a warming-up inner view). Oracle: its answer does not change during the k withheld updates, and afterwards it equals, step by step, the same average over Echo fed only the delivered values. Non-trivial: the window slid."), 2000, 50_000, gated_case(), gated_check).with_shard(150),
+        Clause::generated("C04", "C04/ultra/f64", "same views; 135 000 values (thorough 1.1e6; past 2^16 and 2^17 updates) on the 1/8 grid derived from a generated seed (wide noise, walk with plateaus, zero stretches, ties around a level), f64 run. Ema: an independent f64 evaluation of the recurrence (1e-9 x magnitude) and the span of all inputs, at every step; Sma and Alma: the span of the last N values at every step and the definition from the last values at up to 120 (Alma 40) checkpoints: every power of two from 2^16 on, N+1 steps after it, the last steps, seeded steps. Non-trivial: >= 8 steps compared.", 10, 200, |tier| (ma_spec(), any::<u64>(), 0i64..4).prop_map(move |((spec, _), seed, shape)| Case { spec: Some(spec), ints: vec![(seed >> 1) as i64, tier.pick(135_000, 1_100_000) as i64, shape], a: Rat(1, 1), ..Default::default() }).boxed(), ultra_check).with_shard(2),
         Clause::generated("C04", "C04/Alma/definition/f64", "same on decimal grids, tolerance 1e-9 x largest magnitude.", 2500, 60_000, def_case(true, true), def_f64).with_shard(300),
     ]
 }
